@@ -4,7 +4,7 @@ successes; oracles on concurrent add_unique / add_replace / replace / del / look
 from vlib import *
 import lfht_common as L
 import lfhtx_common as X
-PROGS = ['U0L0/U2L0/L0L0', 'U0U1/U2U5/L0XL0', 'U0L0X/U2L0X/L0L0', 'U3L3/U6L3X/L3XL3', 'U4/U7/L4XL4X', 'U0A1/U2L1/L0XL0X']
+PROGS = ['U0L0P2/A1A5/L0L2', 'A0L0P2/L0X/L0P7', 'U0L0/U2L0/L0L0', 'U0U1/U2U5/L0XL0', 'U0L0X/U2L0X/L0L0', 'U3L3/U6L3X/L3XL3', 'U4/U7/L4XL4X', 'U0A1/U2L1/L0XL0X']
 XPROGS = ['U0L0P2/A3A5T/L0NTL3', 'U0R2/A1A5/L0NTL1', 'U0L0N/U2L0N/U7L0NT', 'U0L0P2/L0NL0X/R7TL0N', 'R0R2/R7L0N/L0NTL0N', 'U0L0X/L0P2/L0P7T', 'U3U5L3P6/L3NL5X/TL3NT', 'U0Z2L0P2/U4L0NZ1/R7TL4N', 'U0L0P2/L0L0L0/L0L0T']
 # a walker (full traversal) is suspended at every point while another thread deletes a node of an equal-hash run and uniquely re-adds its key
 WPROGS = ['U1U0/T/L0XU2', 'U0U1/TT/L0XU7', 'U1U0U5/T/L0XR2L1', 'U1R0/T/L0P2L2XU7']
